@@ -46,18 +46,22 @@ theorem nearest_spec (v : Rat) : ∀ (l : List Rat) (i : Nat) (b : Rat), nearest
       · rename_i hlt
         simp at h
         obtain ⟨rfl, rfl⟩ := h
+        have hle : dist c v ≤ dist b' v := by
+          rcases hlt with h1 | h1
+          · exact le_of_lt h1
+          · exact le_of_eq h1.1
         refine ⟨by simp, ?_⟩
         intro d hd
         rcases List.mem_cons.mp hd with rfl | hd
         · exact le_refl _
-        · exact le_trans (le_of_lt hlt) (ih.2 d hd)
+        · exact le_trans hle (ih.2 d hd)
       · rename_i hge
         simp at h
         obtain ⟨rfl, rfl⟩ := h
         refine ⟨by simpa using ih.1, ?_⟩
         intro d hd
         rcases List.mem_cons.mp hd with rfl | hd
-        · exact not_lt.mp hge
+        · exact not_lt.mp (fun hh => hge (Or.inl hh))
         · exact ih.2 d hd
 
 theorem nearest_isSome (v : Rat) : ∀ (l : List Rat), l ≠ [] → ∃ p, nearest v l = some p
